@@ -127,7 +127,7 @@ pub struct Expect {
 /// (per track) relative chunk offsets in the mdat payload and the mdat payload itself.
 pub fn layout(m: &LMovie) -> (Vec<Vec<u64>>, Vec<u8>) {
     let mut rel: Vec<Vec<u64>> = m.tracks.iter().map(|t| vec![0; t.chunks.len()]).collect();
-    let mut payload: Vec<u8> = (0..m.mdat_lead).map(|i| 0xE0 + i as u8).collect();
+    let mut payload: Vec<u8> = (0..m.mdat_lead).map(|i| 0xE0u8.wrapping_add(i as u8)).collect();
     // first sample index of each chunk
     let firsts: Vec<Vec<usize>> = m
         .tracks
